@@ -1,5 +1,4 @@
-import Vore.Lemmas.Sched
-import Vore.Model.SchedGo
+import Vore.Lemmas.SchedGo
 import Vore.Model.VM
 /-!
 # C19 — Compile and Run are safe to call from many goroutines   (PARTIAL)
@@ -50,7 +49,8 @@ open Vore.Sched Vore.ExtractedGlobals
 /-- **C19 (model).**  `P t` is the code of thread `t` (any number of threads, any length),
 `acc0 t` its arguments, `store0` the initial shared store, `s` ANY schedule.  If threads only
 unlock what they hold and every shared location that is written at all is confined to one
-thread or only updated under one mutex, then
+thread or protected by one mutex (`LockProtected`: every access holds it, and reads are either
+blind or preceded by the reader's own write in the same critical section), then
 
 1. every thread's accumulator is what its own first `pc` actions compute alone,
 2. in particular a thread that has finished holds its sequential result, and
@@ -114,62 +114,11 @@ example :
   | 1, _ => decide
   | 2, _ => decide
 
-/-! ## the access discipline follows from the extracted facts -/
+/-! ## the access discipline follows from the extracted facts
 
-/-- calls that touch no `free` package-level variable satisfy the hypotheses of
-`C19_noninterference`: call-private memory is confined, the program is read-only, the random
-source is lock protected (blind), a `locked m` variable is lock protected by `m` -/
-theorem goCalls_discipline (cls : List GClass) (hcls : ∀ c ∈ cls, c ≠ GClass.free)
-    (P : Tid → List Action) (h : GoCalls cls P) :
-    WellLocked P ∧ ∀ g, Written P g → Confined P g ∨ LockProtected P g := by
-  constructor
-  · intro t n m ha
-    exact h t n _ ha
-  · intro g hw
-    cases g with
-    | global i =>
-      right
-      -- the class of `global i`
-      obtain ⟨t0, n0, a0, ha0, hg0, _⟩ := hw
-      have h0 := h t0 n0 a0 ha0
-      cases hc : cls[i]? with
-      | none => cases a0 <;> simp [Action.target] at hg0 <;> subst hg0 <;> simp [ActionAllowed, hc] at h0
-      | some c =>
-        cases c with
-        | free => exact absurd rfl (hcls _ (List.mem_of_getElem? hc))
-        | locked m =>
-          refine ⟨m, ?_, Or.inr ?_⟩
-          · intro t n a ha hg
-            have := h t n a ha
-            cases a <;> simp [Action.target] at hg <;> subst hg <;> simp [ActionAllowed, hc] at this
-            · exact this.1
-            · exact this
-            · exact this
-          · intro t n a ha hg hnw
-            have := h t n a ha
-            cases a <;> simp [Action.target] at hg <;> subst hg <;>
-              simp [ActionAllowed, hc, Action.isWrite] at this hnw
-            exact this.2
-    | priv o k =>
-      left
-      refine ⟨o, ?_⟩
-      intro t n a ha hg
-      have := h t n a ha
-      cases a <;> simp [Action.target] at hg <;> subst hg <;> simp [ActionAllowed] at this <;> exact this.symm
-    | code k =>
-      obtain ⟨t, n, a, ha, hg, hwr⟩ := hw
-      have := h t n a ha
-      cases a <;> simp [Action.target] at hg <;> subst hg <;>
-        simp [ActionAllowed, Action.isWrite] at this hwr
-    | randSrc =>
-      right
-      refine ⟨randMutex, ?_, Or.inl ?_⟩
-      · intro t n a ha hg
-        have := h t n a ha
-        cases a <;> simp [Action.target] at hg <;> subst hg <;> simp [ActionAllowed] at this ⊢ <;> exact this
-      · intro t n a ha hg
-        have := h t n a ha
-        cases a <;> simp [Action.target] at hg <;> subst hg <;> simp [ActionAllowed, Action.isRmw] at this ⊢
+`goCalls_discipline` (Vore/Lemmas/SchedGo.lean): calls that touch no `free` package-level variable
+satisfy the hypotheses of `C19_noninterference` — call-private memory is confined, the program is
+read-only, the random source is lock protected (blind), a `locked m` variable is lock protected by `m`. -/
 
 /-- **Obligation (regenerated facts): the parser's state is confined or lock protected.**
 Every package-level variable of the libvore packages that a function reachable from `Compile`,
@@ -342,20 +291,6 @@ theorem counter_goCalls : GoCalls [.free] counterP := by
     | 3, h => simp at h; subst h; simp [ActionAllowed]
     | n + 4, h => simp at h
   · simp [ht] at h
-
-/-- without synchronisation actions, happens-before is program order -/
-theorem HB_same_thread {c : List Event} (hns : ∀ (i : Nat) (e : Event), c[i]? = some e → ∀ m, e.kind ≠ .rel m)
-    {i j : Nat} (h : HB c i j) : ∃ e e', c[i]? = some e ∧ c[j]? = some e' ∧ e.tid = e'.tid := by
-  induction h with
-  | po _ hi hj ht => exact ⟨_, _, hi, hj, ht⟩
-  | sw _ hi _ => exact absurd rfl (hns _ _ hi _)
-  | trans _ _ ih1 ih2 =>
-    obtain ⟨e1, e2, h1, h2, h12⟩ := ih1
-    obtain ⟨e2', e3, h2', h3, h23⟩ := ih2
-    rw [h2] at h2'
-    injection h2' with h2'
-    subst h2'
-    exact ⟨e1, e3, h1, h3, h12.trans h23⟩
 
 /-- **The negation for the unfixed code.**  Both threads finish; alone each would name its
 group `_1`; in this schedule thread 0 names it `_2` (thread 1's increment landed between thread
